@@ -20,7 +20,10 @@ BENIGN_PROPS = {"cache": ["C19"], "ident": ["C18"], "mdstore": ["C16"], "request
                 "sigver": ["C02", "C03", "C20", "C17", "C10", "C08"], "policy": ["C08", "C17", "C02"],
                 "timeutil": ["C04", "C19", "C10", "C05"], "advice": ["C17", "C20", "C02", "C05", "C08"],
                 "parse": ["C20", "C17", "C02", "C05", "C03"], "config": ["C02", "C05", "C10"], "redirectsig": ["C15"],
-                "nameid": ["C18"], "mdquery": ["C16"]}
+                "nameid": ["C18"], "mdquery": ["C16"],
+                "cache2": ["C19"], "mdload": ["C16"], "soap": ["C10", "C03", "C15", "C08"], "ecpolicy": ["C08", "C17"],
+                "validate": ["C05", "C10", "C04", "C17"], "producer": ["C08", "C17", "C20", "C02"], "ident2": ["C18"],
+                "client": ["C02", "C05", "C08", "C04"]}
 
 
 def run_check(prop, src, out):
